@@ -302,6 +302,20 @@ func (g *gl) stmt(s ast.Stmt, c *glCtx, k glK) string {
 		}
 		var bs []glBind
 		var vals []string
+		// return r.m(args) where m is a pointer-receiver method that assigns to its receiver: the receiver path is updated first
+		if len(x.Results) == 1 {
+			if call, ok := ast.Unparen(x.Results[0]).(*ast.CallExpr); ok {
+				var tb []glBind
+				if tgt, nv, rest, ok := g.callUpdate(call, &tb); ok && rest != "" {
+					bs = append(bs, tb...)
+					c = g.assignTo(tgt, nv, &bs, c)
+					for i := range g.cur.results {
+						vals = append(vals, tupleProj(rest, len(g.cur.results), i))
+					}
+					return glWrap(bs, c.ret(vals))
+				}
+			}
+		}
 		if len(x.Results) == 0 {
 			for _, r := range g.cur.results {
 				vals = append(vals, g.vname(r))
